@@ -220,7 +220,7 @@ def step (cfg : Cfg) (st : St) (op : List String) (impl : String) : LineOut St :
       | none => bad
       | some file =>
         let fs0 : FS := { main := file }
-        let r := Snap.openOn rj mc fs0.main
+        let r := Snap.openOn rj mc fs0
         let fs := fs0.applyAll r.2
         -- the specification starts from what the implementation itself recovered from the given file
         let st' : St := { snap := some r.1, fs := fs, async := async, closed := false, lastOps := r.2, spec := (implRec impl).getD {},
@@ -231,6 +231,16 @@ def step (cfg : Cfg) (st : St) (op : List String) (impl : String) : LineOut St :
         if async then { state := st', model := some "ok" }
         else { state := st', model := some (showState r.1 fs) }
     | _, _, _ => bad
+  | ["burstleave", att, _burst, _mc] =>
+    -- lives through the real goroutines: Leave() under a backlog, shutdown at once; the leave must be recorded
+    let model := s!"ok n={att} recovered=-"
+    let mon := if !cfg.judgeLeave then none else
+      match kvOf impl "recovered" with
+      | some "-" => none
+      | some r => some ("leave-not-remembered",
+          s!"Leave() while the snapshotter was busy, shutdown at once: a restart would re-join [{r}] (rejoin-after-leave off)")
+      | none => some ("malformed", (impl.take 200).toString)
+    { state := st, model := some model, monitor := mon }
   | "join" :: clk :: ms =>
     match clk.toNat?, ms.mapM parseMember with
     | some clk, some ms => runEv cfg st (.join ms clk) impl
@@ -303,7 +313,7 @@ def step (cfg : Cfg) (st : St) (op : List String) (impl : String) : LineOut St :
     match st.snap, parseBool rj, mc.toNat? with
     | some _, some rj, some mc =>
       if !st.closed then bad else
-      let r := Snap.openOn rj mc st.fs.main
+      let r := Snap.openOn rj mc st.fs
       let fs := st.fs.applyAll r.2
       let mon := judgeRestore cfg st rj impl
       -- the next life: the specification keeps its own state when it has just been confirmed (no leave, same
